@@ -23,6 +23,7 @@ def interesting_values():
         # near misses of the string grammars: right length with a final line feed, one upper-case letter, the characters as bytes
         "a" * 63 + "\n", "A" + "a" * 63, b"a" * 64, "c" * 127 + "\n", "b" * 39 + "\n", "2020-01-01T00:00:00Z\n", 1e300, 2 ** 1024,
         "04", "04ff", "0400160a", "00" * 300,
+        ["type", "metadata_spec_version", "delegations", "expiration", "version", "timestamp"], "type metadata_spec_version delegations expiration version",
         list("ab" * 32), tuple("ab" * 32), 32, 64, [7] * 32, (0,) * 32, [0] * 64,     # sequences / counts that coerce to the right length          # short / long well-formed hex (an OpenPGP header of 1, 2, 4, 300 octets)
     ]
 
